@@ -15,7 +15,7 @@ RULE = ("function leg: every bin table of BT(3,B,{1,2,3}) x 2 name flavours x ev
         "through extent/offset/bins().fetch/pixels().fetch/matrix().fetch in 4 spellings, and every region PAIR through "
         "matrix().fetch(r1, r2) vs the index-slice query and the dense reference. Oracle: linear-scan cover. "
         "Non-trivial: start<end and the range is not the whole chromosome. Distinct by construction.")
-EXTRA_LEGS = 'binsizes: every fixed bin size 1..512 (thorough 4096) x ranges starting / ending on and next to every edge of 41 bins against integer arithmetic; function legs are skipped (cap) if the internal helpers were refactored.'
+EXTRA_LEGS = 'manybins: variable-width chromosomes of 9000 and 4200 bins, ranges starting / ending on bin edges around the powers of two, the eighths and the ends; binsizes: every fixed bin size 1..512 (thorough 4096) x ranges starting / ending on and next to every edge of 41 bins against integer arithmetic; function legs are skipped (cap) if the internal helpers were refactored.'
 BOUNDS = {"quick": "function: BT(3,4,W) = 696 tables x 2 flavours; api: BTrep(3,4) tables, pairs when genome <= 7 bp + binsizes: every fixed bin size 1..512 x ranges starting/ending on and next to every edge of 41 bins (function level, integer-arithmetic reference)",
           "thorough": "function: BT(3,5,W) = 3369 tables x 2 flavours; api: BTrep(3,5) tables, pairs when genome <= 9 bp + binsizes: every fixed bin size 1..4096 x ranges starting/ending on and next to every edge of 41 bins (function level, integer-arithmetic reference)"}
 ASSUMPTIONS = ["an empty range (start == end) may select no bin or the one bin whose closed interval contains the position",
@@ -33,6 +33,9 @@ def units(tier):
     for k in range(len(rep)):
         yield {"leg": "api", "B": B, "k": k}
     yield {"leg": "large"}
+    # chromosomes with thousands of variable-width bins (beyond any block size a lookup might search in): every range that ends
+    # or starts on a bin edge near the powers of two, the quarters and the ends of the chromosome
+    yield {"leg": "manybins"}
     # every fixed bin size 1..512 (thorough 4096) on a chromosome of 41 bins behind a 3-bin one: ranges that start / end on, one
     # before and one after every bin edge - the floor / ceil arithmetic must be exact at every multiple of every bin size
     top = 4096 if th else 512
@@ -317,6 +320,62 @@ def _large(R, only):
             scratch.rm(p)
 
 
+def _manybins(R, only):
+    import cooler
+    R.add("states")
+    R.add("traces")
+    widths = lambda k: 1 + (k * 7) % 5                        # noqa: E731  variable widths 1..5
+    chroms = [("chrS", 3), ("chrA", 9000), ("chrB", 4200)]
+    bins, off = [], {}
+    for c, nb in chroms:
+        off[c] = len(bins)
+        pos = 0
+        for k in range(nb):
+            bins.append((c, pos, pos + widths(k)))
+            pos += widths(k)
+    p = scratch.fresh()
+    try:
+        n = len(bins)
+        build.create(p, bins, {(0, 0): 1, (5, n - 1): 2}, True)
+        clr = cooler.Cooler(p)
+        if clr.binsize is not None:
+            R.mismatch("harness:table-not-variable", {"n": n}, str(clr.binsize))
+            return
+        for c, nb in chroms[1:]:
+            starts = [b[1] for b in bins[off[c]:off[c] + nb]]
+            L = bins[off[c] + nb - 1][2]
+            ks = sorted({k for base in [0, nb // 4, nb // 2, 3 * nb // 4, nb - 1] + [2 ** e for e in range(1, 14)] + [nb // 8 * q for q in range(1, 8)]
+                         for k in (base - 1, base, base + 1) if 0 <= k < nb})
+            kk = 0
+            for k in ks:
+                for (s, e, want) in ((starts[k], L, (k, nb)), (0, starts[k], (0, k)), (starts[k], starts[k] + 1, (k, k + 1)),
+                                     (max(0, starts[k] - 1), starts[k], (max(0, k - 1), k)), (starts[max(0, k - 3)], starts[k], (max(0, k - 3), k))):
+                    if s >= e:
+                        continue
+                    kk += 1
+                    inner = {"chrom": c, "range": [s, e]}
+                    if only is not None and only != inner:
+                        continue
+                    R.order = (R.order[0], kk)
+                    R.ev(1, 1)
+                    R.add("transitions", 2)
+                    R.cls("manybins")
+                    want = (off[c] + want[0], off[c] + want[1])
+                    try:
+                        got = tuple(int(x) for x in clr.extent((c, s, e)))
+                        if got != want:
+                            R.mismatch("Cooler.extent!=cover(many-bins)", inner, f"got={got} want={want}")
+                            continue
+                        if kk % 16 == 0:
+                            bf = clr.bins().fetch(f"{c}:{s}-{e}")
+                            if list(bf.index[[0, -1]]) != [want[0], want[1] - 1] or len(bf) != want[1] - want[0]:
+                                R.mismatch("bins.fetch!=cover(many-bins)", inner, f"{bf.index[0]}..{bf.index[-1]} ({len(bf)} rows) want {want}")
+                    except Exception as ex:
+                        R.mismatch("raises:" + type(ex).__name__, inner, f"{ex!s:.200}")
+    finally:
+        scratch.rm(p)
+
+
 def _binsizes(R, unit, only):
     if not seamprobe.internal_ok(R, "C04:function", _func_probe):
         return
@@ -372,6 +431,9 @@ def _binsizes(R, unit, only):
 
 
 def run(unit, R, tier, only=None):
+    if unit["leg"] == "manybins":
+        _manybins(R, only)
+        return
     if unit["leg"] == "binsizes":
         _binsizes(R, unit, only)
         return
